@@ -11,7 +11,10 @@ META = {
             "evaluates the property on the observed returns and releases alone.  Coincidences of grant and cancellation are forced at both places where "
             "they can happen: at the select (a context whose Done() parks the request there while its blockers release and it is cancelled), and at the "
             "locker's mutex ('handover': the harness holds the mutex until a release and the cancellation path of a waiter are both parked on it, in either "
-            "order; with the release first the waiter runs its cancellation path having been granted after it left the select — one model resolution only).",
+            "order; with the release first the waiter runs its cancellation path having been granted after it left the select — one model resolution only). "
+            "The arrival path is opened the same way: 'arrive-during-release' parks a newcomer inside Lock, in one of the log calls Lock makes through the "
+            "request's own logger (between the failed direct check and the place in the queue), starts the release of a holder, observes whether it has to "
+            "wait on the mutex or runs in between, and requires what the model's single order arrive-then-release gives: the newcomer is granted.",
     "note": "Trusted: Lean kernel (axioms propext/Classical.choice/Quot.sound at most); the reading of lock.go as atomic sections delimited by the mutex; "
             "the Go runtime's select/channel/mutex semantics (the model takes the select's choice among ready cases as nondeterministic; sync.Mutex "
             "serves goroutines parked on it first in, first out when nobody else asks for it); the harness. "
@@ -247,6 +250,7 @@ def run(ctx):
         "Model.Lock reads lock.go as atomic sections delimited by DefaultLocker.mu (tryLock / unlock+recheck / the repaired cancellation path) and "
         "takes Go's choice among ready select cases as a nondeterministic label; tied to the real DefaultLocker by the differential only",
         "Go runtime semantics of mutex, channel close and select; the harness (contexts whose Done() is the yield point before the select; "
+        "a logger per request whose calls are a second yield point, inside Lock; "
         "overlay export VerifView/VerifQueueLen reading the unexported tables under the mutex, VerifMu handing out the mutex itself; "
         "'parked on the mutex' read from runtime.Stack: wait reason sync.Mutex.Lock with a frame of DefaultLocker)",
     ]
